@@ -120,11 +120,15 @@ META = {
             "the quantifier of the property; one foreign delta refutes it for arbitrary writers. The dsstate key namespace is modelled (key = "
             "namespace + cid key, unkey looks at the last component only, List filters by prefix and skips bad keys/values, Get reads key(c) "
             "only): round trip and injectivity proved for every namespace; 'List shows only what Get can read' is refuted by a nested foreign key "
-            "(model only, no suite drives such a key). The batch driver now RUNS the context model: the state layer it uses is derived from the "
+            "(round 8 final: now DRIVEN on the real code — hook suite modes K (the real Consensus, state namespace \"\", raw multi-component keys through "
+            "VerifRawPut/VerifRawDelete, hooks run) and Q (a real dsstate.State with namespace /s0 over an in-memory datastore): keys nested under "
+            "the prefix, keys outside it, keys whose last component is not a cid, undecodable values; State.List, State.Get, State.Has and the "
+            "tracker calls are compared step by step with stList/stGet/stKey/underPrefix/unkey/delHookK; a nested /x/<cid> is listed under the "
+            "cid, is not readable by Get/Has, and its deletion un-lists it without Untrack — model and code agree). The batch driver now RUNS the context model: the state layer it uses is derived from the "
             "regenerated context uses, the worker's take is Ctx.addOk of the queued item's context, so a context-honouring layer is a model arm "
             "(dropped items predicted) instead of only a decide fact. After a failed commit the worker keeps the batch and commits it with the next "
             "item; the driver cuts an observation at the worker's open batch (the former K05d2 shape was an observation of a batch that was "
-            "neither full nor old).",
+            "neither full nor old — a false alarm of the driver, never a finding; no tag is kept for it).",
     "note": "Trusted: Lean kernel, hand-written model/spec, harness (datastore wrapper, broadcaster, value numbering), pubsub in the net suite. "
             "Known findings K05/K05b/K05c/K05d are dependency defects (go-ds-crdt v0.1.21), each with a proved witness and a narrow signature.",
     "technique": "driver-interpreted context layer derived from the regenerated context uses + go/ast translators (hook bodies as an interpreted statement language; batchingEnabled/Validate as comparison tables; context uses of the state layer and the worker's context wiring) related to the model by theorems for all inputs / decide / rfl + regenerated source text of the anchored functions checked against the transcribed snapshot (rfl) + Lean 4 theorems over a replicated-set model and a batching-worker step model + differential correspondence on real go-ds-crdt replicas and a real crdt.Consensus",
